@@ -333,6 +333,7 @@ func runC07(c *Ctx) {
 	// the stored record is the table's own: a value or a lifetime the writer can still reach changes the record without a
 	// write, i.e. without a notify - the waiter's armed expiry timer and "the record it checked" are then stale
 	c.inmemNoSharing(im, "C07.W12")
+	c.inmemOneKeySpelling(im, "C07.W13")
 	// a change the waiter is to notice is a change of the version: every write stores a fresh one
 	c.inmemFreshVersions(im, "C07.V1")
 	c.redisFreshVersions(rd, "C07.V1")
